@@ -202,42 +202,89 @@ Definition list_MoveAfter (l : nat) (e mark : ptr) (s : state) : result state :=
 
 (* for i, e := other.Len(), other.Front(); i > 0; i, e = i-1, e.Next() { l.insertValue(e.Value, l.root.prev) }
    [i] is the loop counter (it only counts down, so it is the structural argument);
-   e.Next() of the post statement is evaluated after every body, through the current heap. *)
-Fixpoint pushbacklist_loop (i : nat) (l : nat) (e : ptr) (s : state) : result state :=
+   e.Next() of the post statement is evaluated after every body, through the current heap.
+
+   These two loops are the only place of the API where a panic can come after writes: when
+   other.len exceeds the number of elements reachable from other.Front() (possible only
+   after Init of a non-empty list, whose stale elements can still be inserted next to), e
+   becomes nil in the middle of the loop and e.Value panics after some copies were
+   inserted. The loop therefore returns the state it reached together with the panic, if
+   any; one iteration ([..._body]) panics on its first statement, before it writes. *)
+Definition pushbacklist_body (l : nat) (e : ptr) (s : state) : result (ptr * state) :=
+  do v <- rd e_val s e;
+  do r <- root_of s l;
+  do p <- rd e_prev s r;
+  do (_, s) <- list_insertValue l v p s;
+  do e <- elem_Next s e;
+  Ok (e, s).
+
+Fixpoint pushbacklist_loop (i : nat) (l : nat) (e : ptr) (s : state) : state * option panic_kind :=
   match i with
-  | O => Ok s
+  | O => (s, None)
   | S i' =>
-      do v <- rd e_val s e;
-      do r <- root_of s l;
-      do p <- rd e_prev s r;
-      do (_, s) <- list_insertValue l v p s;
-      do e <- elem_Next s e;
-      pushbacklist_loop i' l e s
+      match pushbacklist_body l e s with
+      | Ok (e', s') => pushbacklist_loop i' l e' s'
+      | Panic k => (s, Some k)
+      end
+  end.
+
+Definition pushbacklist_run (l other : nat) (s : state) : state * option panic_kind :=
+  match list_lazyInit l s with
+  | Panic k => (s, Some k)
+  | Ok s =>
+      match list_Len s other with
+      | Panic k => (s, Some k)
+      | Ok i =>
+          match list_Front s other with
+          | Panic k => (s, Some k)
+          | Ok e => pushbacklist_loop (Z.to_nat i) l e s
+          end
+      end
   end.
 
 Definition list_PushBackList (l other : nat) (s : state) : result state :=
-  do s <- list_lazyInit l s;
-  do i <- list_Len s other;
-  do e <- list_Front s other;
-  pushbacklist_loop (Z.to_nat i) l e s.
+  match pushbacklist_run l other s with
+  | (s', None) => Ok s'
+  | (_, Some k) => Panic k
+  end.
 
 (* for i, e := other.Len(), other.Back(); i > 0; i, e = i-1, e.Prev() { l.insertValue(e.Value, &l.root) } *)
-Fixpoint pushfrontlist_loop (i : nat) (l : nat) (e : ptr) (s : state) : result state :=
+Definition pushfrontlist_body (l : nat) (e : ptr) (s : state) : result (ptr * state) :=
+  do v <- rd e_val s e;
+  do r <- root_of s l;
+  do (_, s) <- list_insertValue l v r s;
+  do e <- elem_Prev s e;
+  Ok (e, s).
+
+Fixpoint pushfrontlist_loop (i : nat) (l : nat) (e : ptr) (s : state) : state * option panic_kind :=
   match i with
-  | O => Ok s
+  | O => (s, None)
   | S i' =>
-      do v <- rd e_val s e;
-      do r <- root_of s l;
-      do (_, s) <- list_insertValue l v r s;
-      do e <- elem_Prev s e;
-      pushfrontlist_loop i' l e s
+      match pushfrontlist_body l e s with
+      | Ok (e', s') => pushfrontlist_loop i' l e' s'
+      | Panic k => (s, Some k)
+      end
+  end.
+
+Definition pushfrontlist_run (l other : nat) (s : state) : state * option panic_kind :=
+  match list_lazyInit l s with
+  | Panic k => (s, Some k)
+  | Ok s =>
+      match list_Len s other with
+      | Panic k => (s, Some k)
+      | Ok i =>
+          match list_Back s other with
+          | Panic k => (s, Some k)
+          | Ok e => pushfrontlist_loop (Z.to_nat i) l e s
+          end
+      end
   end.
 
 Definition list_PushFrontList (l other : nat) (s : state) : result state :=
-  do s <- list_lazyInit l s;
-  do i <- list_Len s other;
-  do e <- list_Back s other;
-  pushfrontlist_loop (Z.to_nat i) l e s.
+  match pushfrontlist_run l other s with
+  | (s', None) => Ok s'
+  | (_, Some k) => Panic k
+  end.
 
 (* New(): new(List).Init() *)
 Definition list_New (s : state) : result (nat * state) :=
@@ -327,13 +374,21 @@ Definition exec (op : lop) (rs : rstate) : result (lout * rstate) :=
   | LPrev e => ret_ptr h (do p <- elem_Prev s (hnd h e); Ok (p, s))
   end.
 
-(* A panicking call is recovered by the caller and the history continues from
-   the state before the call (every panic of this API happens on the first
-   dereference of a nil argument, before any write: theorem exec_panic_nil). *)
+(* A panicking call is recovered by the caller and the history continues from the
+   state the call had reached: every panic of this API happens on the first
+   dereference of a nil argument, before any write, except in the two list-copying
+   loops (see above), whose partial effect is kept. *)
+Definition panic_state (op : lop) (rs : rstate) : rstate :=
+  match op with
+  | LPushBackList l o => RState (fst (pushbacklist_run (Z.to_nat l) (Z.to_nat o) (st rs))) (hs rs)
+  | LPushFrontList l o => RState (fst (pushfrontlist_run (Z.to_nat l) (Z.to_nat o) (st rs))) (hs rs)
+  | _ => rs
+  end.
+
 Definition step (op : lop) (rs : rstate) : lout * rstate :=
   match exec op rs with
   | Ok x => x
-  | Panic k => (OPanic k, rs)
+  | Panic k => (OPanic k, panic_state op rs)
   end.
 
 Definition init_rstate : rstate := RState (State [] []) [].
